@@ -71,6 +71,11 @@ KF_Unchecked ==
      \* ASA: the first `configure terminal` / `end` pair belongs to setTerminal (SendCmd)
      \/ (P.type = "asa" /\ ftext \in {"configure terminal", "end"} /\ fconf < 2)
 
+\* Known finding: NSX signals failure by the HTTP status only; the body of a 200 reply to a change request
+\* (PUT / PATCH / POST / DELETE) is never inspected, a malformed reply there is not noticed
+KF_NsxBody == P.type = "nsx" /\ fk = "malformed" /\ fclass = "change"
+KF09 == IF KF_Unchecked THEN "UncheckedSendCmd" ELSE IF KF_NsxBody THEN "NsxReplyBodyIgnored" ELSE ""
+
 \* Known finding 1: linux.State.GetErrUnmanaged always returns nil, the missing marker in
 \* /etc/issue is recorded but never reported (an expected output of the suite pins it)
 KF_LinuxMarker == P.type = "linux" /\ P.marker = "absent" /\ P.nameOK
@@ -87,9 +92,9 @@ Mon ==
          "C06", "approve of a correct, managed, active device did not work normally", "")
   /\ Chk(AtEnd => C11(P, chg + sav, E.saved) /\ (P.verb = "compare" => E.devChanges = 0), "C11", "compare changed the device", "")
   /\ Chk(AtEnd => C09stop(P, fseen, pf, E.saved /\ fclass # "job" /\ fk # "late", E.rc, E.status, E.histEnd),
-         "C09", "fault not handled: " \o fk \o " at " \o ftext, IF KF_Unchecked THEN "UncheckedSendCmd" ELSE "")
+         "C09", "fault not handled: " \o fk \o " at " \o ftext, KF09)
   /\ Chk(AtEnd => C09ok(P, E.status, chg, E.devChanges, E.saved, fseen),
-         "C09", "OK recorded although not everything was accepted and saved", IF KF_Unchecked THEN "UncheckedSendCmd" ELSE "")
+         "C09", "OK recorded although not everything was accepted and saved", KF09)
   /\ Chk(AtEnd /\ P.fe = "doapprove" /\ ~fseen /\ E.rc = 0 => E.histEnd = "OK", "C09", "history END does not match exit status", "")
   /\ Chk(AtEnd => (P.type = "ios" /\ E.rc = 0 => ~E.reloadPending), "C15", "reload left pending after a successful run", "")
 
